@@ -49,6 +49,7 @@ Definition xobs (o : obs) : obs :=
   | OResume f t => OResume (rho f) (t + D)
   | OCas f b => OCas (rho f) b
   | OTimed f b => OTimed (rho f) b
+  | OVal f v => OVal (rho f) v
   | o' => o'
   end.
 
@@ -378,6 +379,7 @@ Proof.
       rewrite (updf_x g (fun r' => with_alive r' false) (fun r' => with_alive r' false)) by reflexivity.
       f_equal. unfold xst, set_slots; cbn. rewrite sdel_x. reflexivity.
   - (* ACheck *) reflexivity.
+  - (* ALogVal *) reflexivity.
 Qed.
 
 Lemma do_exit_x : forall f r s, xst (do_exit f r s) = do_exit (rho f) (xfiber r) (xst s).
@@ -500,6 +502,7 @@ Definition ren_obs (rho : fid -> fid) (o : obs) : obs :=
   | OResume f t => OResume (rho f) t
   | OCas f b => OCas (rho f) b
   | OTimed f b => OTimed (rho f) b
+  | OVal f v => OVal (rho f) v
   | o' => o'
   end.
 
@@ -709,6 +712,7 @@ Proof.
     destruct (Nat.eqb g f); [apply dspec_nodraw; simpl; auto; repeat constructor|].
     destruct (fget g (fibers s)) as [rg|]; [|apply dspec_nodraw; simpl; auto; repeat constructor].
     destruct (fstate_eqb (fs rg) FCompleted); apply dspec_nodraw; simpl; auto.
+  - apply dspec_nodraw; simpl; auto. repeat constructor.
   - apply dspec_nodraw; simpl; auto. repeat constructor.
 Qed.
 
